@@ -89,6 +89,11 @@ func (eu *executeUnit) cycle(ctx *risc.Context, app risc.Application, inBus *com
 
 	addrs := runner.Runner.MemoryRead(ctx, 0)
 	if len(addrs) != 0 {
+		if eu.mmu.isStoreQueued(addrs) {
+			// A store to this line is not written yet, the load has to wait
+			eu.remainingCycles = 1
+			return false, 0, false, nil
+		}
 		if m, exists := eu.mmu.getFromL1D(addrs); exists {
 			eu.memory = m
 			eu.pendingMemoryRead = true
@@ -122,6 +127,9 @@ func (eu *executeUnit) run(ctx *risc.Context, app risc.Application, outBus *comp
 		return false, 0, false, nil
 	}
 
+	if execution.MemoryChange {
+		eu.mmu.storeQueued(execution)
+	}
 	outBus.Add(risc.ExecutionContext{
 		Execution:       execution,
 		InstructionType: eu.runner.Runner.InstructionType(),
